@@ -193,6 +193,27 @@ Fixpoint crun (strict : bool) (c : charac) (ops : list cop) : outcome (charac * 
     end
   end.
 
+(** The application may declare the range again at any time (Int/Float.SetMinValue/SetMaxValue or the
+    exported fields; accessory.NewThermostat does): the stored value is left alone, later updates
+    are clamped against the range in force. *)
+Definition redeclare (c : charac) (mn mx : bound) : charac :=
+  mkChar (format c) (p_read c) (p_write c) (p_event c) (cvalue c) mn mx (upd_same c).
+Inductive cop2 := CUpd (op : cop) | CRedeclare (mn mx : bound).
+Definition cstep2 (strict : bool) (c : charac) (op : cop2) : outcome (charac * list callback) :=
+  match op with CUpd o => cstep strict c o | CRedeclare mn mx => Ok (redeclare c mn mx, []) end.
+(** the run records the characteristic after every step together with the step's callbacks *)
+Fixpoint crun2 (strict : bool) (c : charac) (ops : list cop2) : outcome (list (charac * list callback)) :=
+  match ops with
+  | [] => Ok []
+  | op :: r =>
+    match cstep2 strict c op with
+    | Ok (c', cbs) => match crun2 strict c' r with
+                      | Ok tr => Ok ((c', cbs) :: tr)
+                      | e => e end
+    | Err e => Err e | Panic => Panic | OutOfFuel => OutOfFuel
+    end
+  end.
+
 (** what "declared type and range" means *)
 Definition is_int_fmt (f : fmt) : bool :=
   match f with FU8 | FU16 | FU32 | FI32 | FU64 => true | _ => false end.
